@@ -47,7 +47,7 @@ TABLE = [
       'ops': [['apply', ['affine', 1, 0], 2, {'lost': 2.0}, True],
               ['apply', ['id'], 0, {'lost': 0.5}, False], ['take', 0],
               ['take', 4], ['die', 6, 2], ['tick']]}),
-    ('D4-ordered-imap-loss-hidden', 'C04', 'sim', 'open', None,
+    ('D4-ordered-imap-loss-hidden', 'C04', 'sim', 'fixed', '2dcdfd9',
      'C04/v-not-surfaced/imap',
      'ordered imap whose worker dies: mark_as_worker_lost files the failure under '
      'index None (IMapIterator._set), the iterator never yields it and the '
@@ -55,7 +55,7 @@ TABLE = [
      {'config': cfg(lost=0.5, allow=['imap-loss']),
       'ops': [['imap', ['id'], 3, 1, True, True], ['run', 0],
               ['die', 0, -9, True], ['tick'], ['adv', 1.0], ['tick']]}),
-    ('D13-unordered-imap-loss-repeated', 'C04', 'sim', 'open', None,
+    ('D13-unordered-imap-loss-repeated', 'C04', 'sim', 'fixed', '2dcdfd9',
      'C01/own-outcome/imap_unordered/unjustified-WorkerLostError',
      'imap_unordered whose worker dies: the job is marked lost again at every '
      'supervision step, each time consuming one more part, so healthy parts are '
@@ -64,7 +64,7 @@ TABLE = [
       'ops': [['imap', ['id'], 3, 1, False, True], ['run', 0], ['run', 0],
               ['run', 0], ['die', 0, -9, True], ['tick'], ['adv', 1.0], ['tick'],
               ['adv', 1.0], ['tick']]}),
-    ('D9-terminate-job-imap-crash', 'C01', 'sim', 'open', None,
+    ('D9-terminate-job-imap-crash', 'C01', 'sim', 'fixed', '2dcdfd9',
      'C01/raised/tick/AttributeError/_join_exited_workers',
      'terminate_job() on a worker running an imap part: the next supervision '
      'step calls job._set_terminated which the iterators do not have; the '
